@@ -1222,6 +1222,9 @@ pub fn replay(scenario: &str, path: &[usize]) -> Option<RunResult> {
     if scenario == super::c03x::PerType.name() {
         return Some(super::c03x::PerType.run(path[0], true));
     }
+    if scenario == super::c03x::EventVariations.name() {
+        return Some(super::c03x::EventVariations.run(path[0], true));
+    }
     if scenario == (super::c03x::Capacities { id: "C03" }).name() {
         return Some(super::c03x::Capacities { id: "C03" }.run(path[0], true));
     }
@@ -1243,6 +1246,7 @@ pub fn check(tier: &str) -> i32 {
     }
     c.cases(&super::c03x::PerType);
     c.cases(&super::c03x::Capacities { id: "C03" });
+    c.cases(&super::c03x::EventVariations);
     for s in super::c03x::series(tier) {
         c.explore(&s);
     }
